@@ -341,15 +341,32 @@ class _Settings:
 # Expand: C(p) = {p} + sum_a C(pa)
 # --------------------------------------------------------------------------
 class Expand(_Settings, DisjointUnionStrategy):
-    SETTINGS = ("order", "skip", "skip_prefixes", "xf_atom", "xf_rest")
+    SETTINGS = ("order", "skip", "skip_prefixes", "xf_atom", "xf_rest", "mirror")
 
-    def __init__(self, order=0, skip=(), skip_prefixes=(), xf_atom="id", xf_rest="id", **kw):
+    def __init__(self, order=0, skip=(), skip_prefixes=(), xf_atom="id", xf_rest="id", mirror=False, **kw):
         self.order = int(order)
         self.skip = tuple(skip)
         self.skip_prefixes = tuple(skip_prefixes)
         self.xf_atom = xf_atom
         self.xf_rest = xf_rest
+        # mirror: every child is written with the first two letters exchanged, so the
+        # object maps of this union are not the identity (a word goes to its mirror image)
+        # (mirror=2 on three letters: rotate them instead, a map that is not its own inverse)
+        self.mirror = int(mirror)
         super().__init__(**kw)
+
+    def _tau(self, c: WC):
+        if not self.mirror or len(c.alphabet) < 2:
+            return None
+        if self.mirror == 2 and len(c.alphabet) >= 3:
+            n = len(c.alphabet)
+            return {a: c.alphabet[(i + 1) % n] for i, a in enumerate(c.alphabet)}
+        return {c.alphabet[0]: c.alphabet[1], c.alphabet[1]: c.alphabet[0]}
+
+    @staticmethod
+    def _mirror_class(c: WC, tau):
+        ap = lambda w: "".join(tau.get(l, l) for l in w)  # noqa: E731
+        return c.derive(prefix=ap(c.prefix), patterns=tuple(ap(p) for p in c.patterns), stats=tuple(ap(s_) for s_ in c.stats))
 
     def _natural(self, c: WC):
         atom = c.derive(just_prefix=True, strict=False)
@@ -365,7 +382,10 @@ class Expand(_Settings, DisjointUnionStrategy):
 
     def _children_and_maps(self, c: WC):
         out = []
+        tau = self._tau(c)
         for nat in self._natural(c):
+            if tau is not None:
+                nat = self._mirror_class(nat, tau)
             out.append(transform(nat, FLAGSETS[self.xf_atom if nat.just_prefix else self.xf_rest]))
         return out
 
@@ -383,20 +403,30 @@ class Expand(_Settings, DisjointUnionStrategy):
         return tuple(m for _, m in self._children_and_maps(comb_class))
 
     def formal_step(self) -> str:
-        return f"either just the prefix or append a letter (order {self.order})"
+        return f"either just the prefix or append a letter (order {self.order})" + (" and mirror the letters" if self.mirror else "")
 
     def forward_map(self, comb_class, obj, children=None):
         nat = self._natural(comb_class)
+        tau = self._tau(comb_class)
+        image = W("".join(tau.get(l, l) for l in obj)) if tau is not None else W(obj)
         res = [None] * len(nat)
         for i, ch in enumerate(nat):
             if ch.just_prefix:
                 if len(obj) == len(comb_class.prefix):
-                    res[i] = W(obj)
+                    res[i] = image
                     break
             elif len(obj) > len(comb_class.prefix) and obj.startswith(ch.prefix):
-                res[i] = W(obj)
+                res[i] = image
                 break
         return tuple(res)
+
+    def backward_map(self, comb_class, objs, children=None):
+        tau = self._tau(comb_class)
+        inv = {v: k for k, v in tau.items()} if tau is not None else None
+        for o in objs:
+            if o is not None:
+                yield W("".join(inv.get(l, l) for l in o)) if inv is not None else W(o)
+                return
 
     def __str__(self):
         return self.formal_step()
